@@ -215,6 +215,20 @@ theorem fact_windows :
 theorem fact_store_prefixes_distinct :
     Facts.C02.storeKeyPrefixValues.Nodup := by decide
 
+/-- which members of the request object each handler reads: the authorization_code token request is judged by code,
+    code_verifier and client_id alone (NOT by a scope / assertion / submission parameter), the authorize response by
+    state, vp_token, presentation_submission (and error), introspection by the token -/
+theorem fact_request_members_read :
+    Facts.C02.readsCodeToken = ["request.ClientId", "request.Code", "request.CodeVerifier"] ∧
+    Facts.C02.readsHandleTokenRequest =
+      ["request.Body", "request.Body.Assertion", "request.Body.ClientId", "request.Body.GrantType",
+       "request.Body.PresentationSubmission", "request.Body.Scope", "request.SubjectID"] ∧
+    Facts.C02.readsAuthorizeResponse =
+      ["request.Body.PresentationSubmission", "request.Body.State", "request.Body.VpToken", "request.SubjectID"] ∧
+    Facts.C02.readsAuthorizeResponseDispatch = ["request.Body.Error"] ∧
+    Facts.C02.readsIntrospectPlain = ["request.Body.Token"] ∧
+    Facts.C02.readsIntrospectExtended = ["request.Body.Token"] := ⟨rfl, rfl, rfl, rfl, rfl, rfl⟩
+
 /-- the s2s nonce is remembered for the whole window in which the verifier accepts the presentation -/
 theorem fact_nonce_ttl_covers_window :
     Facts.C02.s2sMaxValidityMs + 2 * Facts.C02.verifierMaxSkewMs ≤ Facts.C02.s2sNonceTtlMs := by decide
@@ -514,6 +528,21 @@ theorem code_token_only_if (cfg : Cfg) (sha : String → String) (w w' : World) 
     ∃ code verifier session, CodeChecked cfg sha w now r code verifier session ∧
       CodeEffect cfg w w' now r code session resp :=
   issueCode_ok cfg sha w w' now r resp h
+
+/-- **the token is a function of the SESSION, not of the token request.** Whatever other form parameters an
+    authorization_code token request carries (scope, assertion, presentation_submission, resource, client assertions,
+    duplicates, …) the answer and the state change are the same: issuer, client, scope, definitions and claims of the
+    token come from the session the code stands for (`code_token_only_if`). -/
+theorem code_token_independent_of_extra_parameters (cfg : Cfg) (sha : String → String) (w : World) (now : Nat)
+    (r : CodeReq) (e₁ e₂ : List (String × String)) :
+    issueCode cfg sha w now { r with extra := e₁ } = issueCode cfg sha w now { r with extra := e₂ } := rfl
+
+/-- the scope of a code-flow token is the scope of the authorization request, for which the definitions were fulfilled -/
+theorem code_token_scope_is_session_scope (cfg : Cfg) (sha : String → String) (w w' : World) (now : Nat) (r : CodeReq)
+    (resp : TokenResponse) (h : issueCode cfg sha w now r = (w', .ok resp)) :
+    ∃ code session, r.code = some code ∧ w.codes.get now code = some session ∧ resp.scope = session.scope := by
+  obtain ⟨code, _, session, hc, heff⟩ := issueCode_ok cfg sha w w' now r resp h
+  exact ⟨code, session, hc.codeGiven, hc.known, heff.scope⟩
 
 /-- an authorization code that has been presented once (by a known tenant, whatever the outcome) never buys a
     token afterwards, whatever happens in between (sequential histories; races are C05) -/
